@@ -142,6 +142,10 @@ Gen<Op> gOpOfKind(const std::string &kind, const HistCfg &h) {
         return gen::map(uni(0, 4), [](int k) { return mkOp("resize", {S(k)}); });
     if (kind == "rmloops" || kind == "clear" || kind == "dedup" || kind == "badall" || kind == "xrev" || kind == "xconv")
         return gen::just(mkOp(kind, {}));
+    if (kind == "xcopy")
+        return gen::map(gen::tuple(wel({{2, 0}, {2, 1}, {2, 2}, {3, 3}}), uni(0, 40), uni(0, 4), uni(0, 3)), [](const std::tuple<int, int, int, int> &t) {
+            return mkOp("xcopy", {S(std::get<0>(t)), S(std::get<1>(t)), S(std::get<2>(t)), S(std::get<3>(t))});
+        });
     if (kind == "churn") {
         auto cnt = wel({{6, 3}, {3, 300}, {2, 5000}, {1, 66000}});
         if (h.fam == 'W')
